@@ -16,7 +16,7 @@ import path from "node:path";
 import { Rng } from "./lib.mjs";
 import { buildTsNode } from "./hostlib.mjs";
 
-export function watchLoopLeg(outDir, N, root) {
+export async function watchLoopLeg(outDir, N, root) {
   const work = path.join(outDir, "watchloop_host_" + process.pid);
   const res = { ran: true, histories: N, change_events: 0, builds: 0, files_read: 0, violations: [] };
   let T;
@@ -72,6 +72,57 @@ export function watchLoopLeg(outDir, N, root) {
   const viol = (cls, detail) => {
     if (!res.violations.some((v) => v.class === cls)) res.violations.push({ class: cls, detail });
   };
+  // A host may do its work asynchronously (promise jobs, fs.promises, callback-style fs calls): asynchronous
+  // file operations of the code under test are counted while they are in flight, and after every step the leg
+  // lets simulated time run AND gives the real event loop turns until nothing moves any more - no timer left,
+  // no file operation in flight, no new call to the wasm package for three turns. Quiescence, not a wall clock,
+  // ends the wait, so machine load decides nothing.
+  let inflight = 0;
+  const realFsP = {};
+  for (const k of Object.keys(fs.promises)) {
+    if (typeof fs.promises[k] !== "function") continue;
+    realFsP[k] = fs.promises[k];
+    fs.promises[k] = (...a) => {
+      inflight++;
+      return Promise.resolve(realFsP[k].apply(fs.promises, a)).finally(() => { inflight--; });
+    };
+  }
+  const realFsCb = {};
+  for (const k of ["readFile", "writeFile", "stat", "lstat", "access", "mkdir", "rename", "unlink", "readdir", "rm", "appendFile", "copyFile"]) {
+    realFsCb[k] = fs[k];
+    fs[k] = (...a) => {
+      const cb = a[a.length - 1];
+      if (typeof cb !== "function") return realFsCb[k].apply(fs, a);
+      inflight++;
+      a[a.length - 1] = (...r) => { inflight--; cb(...r); };
+      return realFsCb[k].apply(fs, a);
+    };
+  }
+  const turn = () => new Promise((r) => real.setImmediate(r));
+  const settle = async () => {
+    let idle = 0;
+    let turns = 0;
+    let waited = 0;
+    while (idle < 3 && turns < 5000 && waited < 20000) {
+      const before = (globalThis.__wasm_calls || []).length;
+      quiet(() => clock.drain());
+      if (inflight > 0) {
+        // a real file operation of the code under test is in flight: its completion is awaited (however long
+        // the machine takes), not a deadline
+        await new Promise((r) => real.setTimeout(r, 1));
+        waited++;
+        idle = 0;
+        continue;
+      }
+      turns++;
+      await turn();
+      if (clock.q.length === 0 && inflight === 0 && (globalThis.__wasm_calls || []).length === before) idle++;
+      else idle = 0;
+    }
+    res.event_loop_turns = (res.event_loop_turns || 0) + turns;
+    if (waited >= 20000 || turns >= 5000) res.settle_gave_up = (res.settle_gave_up || 0) + 1;
+  };
+  const realConsole = { error: console.error, log: console.log, warn: console.warn, info: console.info };
   try {
     for (let i = 0; i < N; i++) {
       const rng = new Rng(root, "watchloop", i);
@@ -103,13 +154,18 @@ export function watchLoopLeg(outDir, N, root) {
       let readSet = ["entry.ts", ...files.slice(1).filter(() => rng.chance(1, 2))];
       let buildNo = 0;
       let lastCode = null;
+      let lastOk = false;
       globalThis.__beff_cli_opts = { watch: true, project: abs("bff.json"), verbose: false };
       globalThis.__wasm_behaviour = {
         reads: () => readSet.map(abs),
         result: () => {
           buildNo++;
           res.builds++;
+          lastOk = false;
           if (rng.chance(1, 5)) return undefined; // a build that fails
+          lastOk = true;
+          // one build in five gives exactly the code of the build before (a save that changed a comment only)
+          if (lastCode && rng.chance(1, 5)) return lastCode;
           const lit = JSON.stringify(rng.pick(["on hold", "onhold", "on  hold", "on\thold", "on hold "]));
           // one build in three differs from the one before in white space inside a string literal only
           if (lastCode && rng.chance(1, 3)) lastCode = lastCode.replace(/"[^"]*"/, lit);
@@ -119,8 +175,9 @@ export function watchLoopLeg(outDir, N, root) {
       };
       process.chdir(dir);
       const C = T.newProcess();
+      console.error = console.log = console.warn = console.info = () => {};
       quiet(() => C.commanderExec());
-      quiet(() => clock.drain());
+      await settle();
       const everRead = new Set(readSet);
       const steps = rng.range(2, 10);
       for (let s = 0; s < steps; s++) {
@@ -132,6 +189,14 @@ export function watchLoopLeg(outDir, N, root) {
         }
         // one save, or two files saved together (save-all, a formatter, a checkout)
         const saved = rng.chance(1, 4) ? rng.shuffle([...files]).slice(0, 2) : [rng.pick(files)];
+        // somebody else touches the output directory between two builds (git checkout / stash / clean, a
+        // build script): the generated file is gone, or holds something else
+        if (rng.chance(1, 6)) {
+          const outFile = abs("gen/parser.js");
+          res.output_interfered = (res.output_interfered || 0) + 1;
+          if (rng.chance(1, 2)) fs.rmSync(outFile, { force: true });
+          else if (fs.existsSync(path.dirname(outFile))) fs.writeFileSync(outFile, "/* restored from version control */\n");
+        }
         for (const f of saved) {
           put(f);
           if (rng.chance(1, 4)) put(f); // saved twice before the watcher reports
@@ -147,8 +212,9 @@ export function watchLoopLeg(outDir, N, root) {
           res.change_events++;
         }
         if (!fired.length) continue;
-        // the loop may defer its work (debouncing): simulated time runs until no timer is left
-        quiet(() => clock.drain());
+        // the loop may defer its work (debouncing, asynchronous reads): simulated time runs and the event loop
+        // turns until nothing moves any more
+        await settle();
         const calls = globalThis.__wasm_calls.slice(before);
         for (const f of fired) {
           const disk = fs.readFileSync(abs(f), "utf8");
@@ -172,8 +238,9 @@ export function watchLoopLeg(outDir, N, root) {
         }
         if (!calls.some((c) => c.name === "bundle_to_string_v2")) viol("watch-loop-change-is-not-followed-by-a-build", { history: i, files: fired, calls: calls.map((c) => c.name) });
         for (const x of readSet) everRead.add(x);
-        if (lastCode !== codeBefore) {
-          // the build succeeded: the output on disk is this build's code
+        if (lastOk && calls.some((c) => c.name === "bundle_to_string_v2")) {
+          // the build succeeded: the output on disk is this build's code (also when it is the code of the build
+          // before and the file was removed or replaced by somebody else in the meantime)
           const outFile = abs("gen/parser.js");
           const text = fs.existsSync(outFile) ? fs.readFileSync(outFile, "utf8") : "";
           if (!text.includes(lastCode)) viol("watch-loop-output-on-disk-is-not-the-last-successful-build", { history: i, expected: lastCode, found: (text.match(/\/\*CODE [\d.]+\*\/[^\n]*/) || [null])[0] });
@@ -190,6 +257,9 @@ export function watchLoopLeg(outDir, N, root) {
     res.ran = false;
     res.reason = "watch loop could not be driven: " + String(e && e.stack).slice(0, 400);
   } finally {
+    Object.assign(console, realConsole);
+    for (const k of Object.keys(realFsP)) fs.promises[k] = realFsP[k];
+    for (const k of Object.keys(realFsCb)) fs[k] = realFsCb[k];
     Object.assign(globalThis, real);
     process.chdir(cwd0);
     fs.rmSync(work, { recursive: true, force: true });
